@@ -7,6 +7,36 @@ import vlib
 from props import exact_common as ec
 
 LIT = re.compile(r"^(-?)(\d+)(?:\.(\d+))?$")
+# the standard signed-numeric grammar with an exponent (valid JSON, valid WKT for a standard reader): such a literal is not
+# malformed; the digit-count / rounding clause is not applied to it (a fractional digit of the mantissa is not a fractional
+# digit of the value), it is counted in the coverage report instead
+EXPLIT = re.compile(r"^(-?)(\d+)(?:\.(\d+))?[eE]([+-]?\d+)$")
+NOT_JUDGED = "exponent literals not judged"
+BY_VALUE = "exponent literals judged by value only"
+
+
+def exp_lit(ctx, x, lit, d):
+    """A literal with an exponent: the expression Decimal!ExpLitOK for it (distance to the exact value x = 'm:e' only), or
+    None when its power of ten is beyond what the checker's constant folder takes (then it is counted as not judged)."""
+    mm = EXPLIT.match(lit)
+    sign, ip, fp, ex = mm.group(1), mm.group(2), mm.group(3) or "", int(mm.group(4))
+    digits = int(ip + fp) * (-1 if sign else 1)
+    p = ex - len(fp)                     # value = digits * 10^p
+    if p > 400 or p < -600:
+        ctx.coverage_extra[NOT_JUDGED] = ctx.coverage_extra.get(NOT_JUDGED, 0) + 1
+        return None
+    if p >= 0:
+        digits, nf = digits * 10 ** p, 0
+    else:
+        nf = -p
+    m, e = x.split(":")
+    m, e = int(m), int(e)
+    while m != 0 and abs(m) < (1 << 52) and e > -1074:      # 53-bit mantissa: 2^e is the unit in the last place
+        m, e = m * 2, e - 1
+    k1, k2, k3 = split3(abs(e))
+    ctx.coverage_extra[BY_VALUE] = ctx.coverage_extra.get(BY_VALUE, 0) + 1
+    return "ExpLitOK(%s, %d, %d, %d, %s, %d, %s, %d, %d)" % (ec.tla_int(m), k1, k2, k3, "TRUE" if e < 0 else "FALSE", d, ec.tla_int(digits),
+                                                             min(nf, 300), max(nf - 300, 0))
 PALETTE = [0.0, -0.0, 0.1, 0.5, 1.5, 2.5, -2.5, 0.125, 0.375, 0.0625, 1e-7, -1e-7, 5e-324, 1.7976931348623157e308, 123456789.125,
            0.999999999, 9.9999995, 99.5, 0.05, 0.049999999999999996, 1e15 + 0.5, 2.0 ** 53, 1e21, 1e22, 0.000123456,
            12345.678905, 1.0000000000000002, 0.30000000000000004, 1e-15, 4.9999999999999995e-16, 5e-16, 100.0, 1000000.0,
@@ -47,6 +77,11 @@ def num_pipe(ctx, verdict, cases, name="digits-nums"):
             parts, why = [], "rounding"
             for lit in row["lits"]:
                 mm = LIT.match(lit["t"])
+                if not mm and EXPLIT.match(lit["t"]):
+                    ex = exp_lit(ctx, row["x"], lit["t"], d)
+                    if ex:
+                        parts.append(ex)
+                    continue
                 if not mm:
                     parts, why = ["FALSE"], "malformed-number|" + lit["src"]
                     break
@@ -55,7 +90,7 @@ def num_pipe(ctx, verdict, cases, name="digits-nums"):
                 last = int(fp[-1]) if fp else -1
                 parts.append("RoundOK(%s, %d, %d, %d, %s, %d, %s, %d, %d, %d)" % (
                     ec.tla_int(m), k1, k2, k3, "TRUE" if e < 0 else "FALSE", d, ec.tla_int(digits), len(fp), last, max(d - len(fp), 0)))
-            exprs.append(" /\\ ".join(parts))
+            exprs.append(" /\\ ".join(parts) or "TRUE")
             sigs.append("digits|%s|d=%s" % (why, "0" if d == 0 else ">0"))
             flat_cases.append(dict(kind="nums", d=d, vals=[v]))
     spec = open(os.path.join(ctx.specdir, "Decimal.tla")).read()
@@ -140,9 +175,13 @@ def round_ok(x, lit, d):
 def shape_pipe(ctx, verdict, cases, name="digits-shapes"):
     """Every literal of the WKT text and of the GeoJSON document (coordinates and bounding box, options in both orders) of
     geometries of every type and layout, each next to the exact ordinate it renders: Apalache decides Decimal!RoundOK.
-    One obligation per ordinate: all literals written for it."""
+    One obligation per ordinate: all literals written for it.  Per geometry two more: an encode error with a box requested
+    and the arity of the box, both relative to what the same encoder does without a digit limit (Decimal!BBoxEncodeOK,
+    Decimal!BBoxArityOK).  A literal with an exponent is well formed; only its distance to the value is judged (Decimal!ExpLitOK)."""
     obs = list(vlib.run_driver(ctx, "digits", cases, for_tlc=False))
     exprs, sigs, flat_cases = [], [], []
+    ctx.coverage_extra.setdefault(NOT_JUDGED, 0)
+    ctx.coverage_extra.setdefault(BY_VALUE, 0)
     for c, o in zip(cases, obs):
         d, g = c["d"], c["g"]
         dd = "0" if d == 0 else ">0"
@@ -158,8 +197,29 @@ def shape_pipe(ctx, verdict, cases, name="digits-shapes"):
         st = STRIDE[g["l"]]
         per = [[] for _ in x]            # per ordinate: (source, literal)
         srcs = [("wkt", o["wkt"]["err"], o["wkt"]["lits"])]
+        boxes = []
         if g["l"] != "XYM":                # GeoJSON has no XYM: outside the property's quantifier
-            srcs += [("geojson-" + j["order"], j["err"], j["coords"]) for j in o["gj"]]
+            # structure with a box requested, against what the same encoder does WITHOUT a digit limit (o["ref"]): decided by
+            # Decimal!BBoxEncodeOK / BBoxArityOK; this code only writes the recorded facts down as arguments
+            ref, coll = o["ref"], g["t"] == "GC"
+            tb = lambda b: "TRUE" if b else "FALSE"
+            enc, ari = [], []
+            for jj in o["gj"]:
+                enc.append("BBoxEncodeOK(%s, %s, %s)" % (tb(jj["err"] != ""), tb(coll), tb(ref["err"] != "")))
+                if not jj["err"]:
+                    srcs.append(("geojson-" + jj["order"], "", jj["coords"]))
+                    ari.append("BBoxArityOK(%d, %d, %d)" % (len(jj["bbox"]), -1 if ref["err"] else ref["nbbox"], st))
+                    boxes.append(jj)
+            exprs.append(" /\\ ".join(enc))
+            sigs.append("digits|geojson|encode-error")
+            flat_cases.append(c)
+            if ari:
+                exprs.append(" /\\ ".join(ari))
+                sigs.append("digits|bbox|arity")
+                flat_cases.append(c)
+            if len(boxes) < len(o["gj"]):
+                # refused with a box: the coordinates are those written under the digit limit alone
+                srcs.append(("geojson-D", o["plain"]["err"], o["plain"]["coords"]))
         bad = False
         for src, err, lits in srcs:
             if err:
@@ -171,26 +231,30 @@ def shape_pipe(ctx, verdict, cases, name="digits-shapes"):
             else:
                 for k, t in enumerate(lits):
                     per[k].append((src, t))
-        if g["l"] != "XYM" and not bad:
-            nb = 2 if st == 2 else 3
-            for j in o["gj"]:
-                if len(j["bbox"]) != 2 * nb:
-                    fail("bbox|arity")
-                    bad = True
-                    break
-                for k, t in enumerate(j["bbox"]):
-                    per[k if k < nb else len(x) - st + (k - nb)].append(("bbox-" + j["order"], t))
         if bad:
             continue
+        for jj in boxes:
+            # columns are sorted: a box over the first nb dimensions is the first position's ordinates, then the last position's
+            nb = len(jj["bbox"]) // 2
+            if len(jj["bbox"]) % 2 or not 2 <= nb <= st:
+                ctx.coverage_extra["bbox literals not judged"] = ctx.coverage_extra.get("bbox literals not judged", 0) + len(jj["bbox"])
+                continue
+            for k, t in enumerate(jj["bbox"]):
+                per[k if k < nb else len(x) - st + (k - nb)].append(("bbox-" + jj["order"], t))
         for k, lits in enumerate(per):
             parts, why = [], "rounding"
             for src, t in lits:
                 e = round_ok(x[k], t, d)
+                if e is None and EXPLIT.match(t):
+                    ex = exp_lit(ctx, x[k], t, d)
+                    if ex:
+                        parts.append(ex)
+                    continue
                 if e is None:
                     parts, why = ["FALSE"], "malformed-number|" + src.split("-")[0]
                     break
                 parts.append(e)
-            exprs.append(" /\\ ".join(parts))
+            exprs.append(" /\\ ".join(parts) or "TRUE")
             sigs.append("digits|%s|d=%s" % (why, dd))
             flat_cases.append(c)
     spec = open(os.path.join(ctx.specdir, "Decimal.tla")).read()
@@ -287,4 +351,8 @@ def run(ctx, verdict):
                         "the ordinates of points, linestrings, polygons, multi-geometries and collections in all four layouts; every "
                         "literal of the WKT text, of the GeoJSON coordinates and of the bounding box (both option orders) is parsed by "
                         "a regular expression into sign / digits / fraction and decided exactly by Apalache against the ordinate it "
-                        "renders (columns are sorted within a geometry, so the box is the first and the last position)" % len(PALETTE)]
+                        "renders (columns are sorted within a geometry, so the box is the first and the last position)" % len(PALETTE),
+                        "left open: how many dimensions a bounding box has (it must be what the same encoder writes without a digit "
+                        "limit), a collection refused with a box both with and without the limit, literals written with an exponent "
+                        "(well formed; the clauses on fractional digits and trailing zeros are not applied to them, the distance to "
+                        "the exact value is: half a unit of the d-th place or half an ulp, Decimal!ExpLitOK; see '%s' / '%s')" % (BY_VALUE, NOT_JUDGED)]
